@@ -50,6 +50,11 @@ def main(argv):
     ])
     cases = c.harness("c09")
     prop_fail, corr_fail, copy_fail = [], [], []
+    if c.replay_in:
+        # the harness re-ran the recorded (shape, depth) / source on the real interpreter and printed
+        # the observable and the high-water marks next to the recorded ones
+        print(getattr(c, "harness_log", ""), flush=True)
+        c.finish("proof")
     if cases:
         stats = json.load(open(os.path.join(common.BUILD, "C09.stats")))
         for k in ("counts", "info", "shapes"):
